@@ -66,7 +66,7 @@ class DiscGateway(SecureGateway):
             fams.append((FAM_ROUTING, 1))
         if c["sec_tunnelling"] or c["sec_routing"]:
             fams.append((FAM_SECURITY, 1))
-        dibs = dib_device_info(self.ind_addr, c.get("name", "gw"), self.SERIAL) + dib_families(fams)
+        parts = [("info", dib_device_info(self.ind_addr, c.get("name", "gw"), self.SERIAL)), ("fam", dib_families(fams))]
         if ext:
             sec = []
             if c["sec_tunnelling"]:
@@ -74,9 +74,18 @@ class DiscGateway(SecureGateway):
             if c["sec_routing"]:
                 sec.append((FAM_ROUTING, 1))
             if sec or c.get("empty_secured_dib"):
-                dibs += dib_families(sec, secured=True)
+                parts.append(("sec", dib_families(sec, secured=True)))
             if c["tunnelling"]:
-                dibs += dib_tunnel_info([(self.ind_addr + 1, 0x0007), (self.ind_addr + 2, 0x0007)])
+                parts.append(("tun", dib_tunnel_info([(self.ind_addr + 1, 0x0007), (self.ind_addr + 2, 0x0007)])))
+        # the order of description blocks in a response is not fixed by the standard
+        order = c.get("dib_order", "std")
+        if order == "secured_first":
+            parts.sort(key=lambda p: 0 if p[0] == "sec" else 1)
+        elif order == "reversed":
+            parts.reverse()
+        elif order == "families_last":
+            parts.sort(key=lambda p: 1 if p[0] == "fam" else 0)
+        dibs = b"".join(p[1] for p in parts)
         fr = W.frame(W.SEARCH_RES_EXT if ext else W.SEARCH_RES, W.hpai(self.ip, self.port) + dibs)
         lat = beh if isinstance(beh, (int, float)) else None
         self.answered.append("ext" if ext else "plain")
